@@ -123,17 +123,37 @@ def extras_frame(tf):
     return out
 
 
+CELL_BUDGET = 6000
+
+
+def cell_rows(R, C):
+    """rows read cell by cell: all of them, or (beyond CELL_BUDGET cells) the first and last 48 and a stride"""
+    if R * max(C, 1) <= CELL_BUDGET:
+        return list(range(R))
+    k = max(1, CELL_BUDGET // max(C, 1) - 96)
+    step = max(1, R // k)
+    return sorted(set(list(range(min(48, R))) + list(range(max(0, R - 48), R)) + list(range(0, R, step))))
+
+
+def cell_cols(C):
+    if C <= 600:
+        return list(range(C))
+    return sorted(set(list(range(300)) + list(range(C - 300, C))))
+
+
 def cells_frame(tf):
     """cell-wise reading of a frame through the public accessors (`feat[i, j]`), keys sorted:
-    a second, representation-independent view used by the oracle."""
+    a second, representation-independent view used by the oracle.  (Containers with more than CELL_BUDGET cells
+    are read at a deterministic sample of rows; `canon_frame` always compares every stored element.)"""
     out = {}
     for s in sorted(tf.feat_dict, key=lambda s: s.name):
         f = tf.feat_dict[s]
 
         def cells(m):
             isf = m.values.dtype.is_floating_point
-            return [[[enc_scalar(x, isf) for x in m[i, j].reshape(-1).tolist()] for j in range(m.num_cols)]
-                    for i in range(m.num_rows)]
+            cols = cell_cols(m.num_cols)
+            rows = cell_rows(m.num_rows, len(cols))
+            return [[i, [[enc_scalar(x, isf) for x in m[i, j].reshape(-1).tolist()] for j in cols]] for i in rows]
         if isinstance(f, torch.Tensor):
             isf = f.dtype.is_floating_point
             out[s.name] = [str(f.dtype), list(f.shape), [enc_scalar(x, isf) for x in f.reshape(-1).tolist()]]
@@ -216,8 +236,19 @@ def canon_serialized(raw):
 
 
 # ------------------------------------------------------------------------------- direct frames
-def _rnd_float(rng, nan_p=.1):
-    return 'nan' if rng.random() < nan_p else rng.randint(-20, 20) * 0.25
+# payloads at the edges, written as strings (JSON has no inf / -0.0): exact in float32 ...
+SPECIAL_FLOATS = ['inf', '-inf', '-0.0', '16777216.0', '16777218.0', '-2147483648.0', '3e38', '1e-38', '-1.0', '0.5']
+# ... and float64-only ones (rounded when the container is float32, kept when it is float64)
+SPECIAL_F64 = ['0.1', '0.3333333333333333', '16777217.0', '1700000001.0', '1e39', '-1e39', '1.7e308', '5e-324']
+
+
+def _rnd_float(rng, nan_p=.1, special_p=.06):
+    u = rng.random()
+    if u < nan_p:
+        return 'nan'
+    if u < nan_p + special_p:
+        return rng.choice(SPECIAL_FLOATS + SPECIAL_F64)
+    return rng.randint(-20, 20) * 0.25
 
 
 def gen_direct_frame(rng, R=None, stypes=None):
@@ -252,27 +283,85 @@ def gen_direct_frame(rng, R=None, stypes=None):
                 return 0 if mode == 'allempty' else rng.randint(0, 5) if mode == 'long' else rng.choice([0, 0, 1, 2, 3])
             cells = [[[(_rnd_float(rng) if isf else rng.randint(-1, 9)) for _ in range(ln())] for _ in range(C)]
                      for _ in range(R)]
-            feats.append({'stype': name, 'kind': kind, 'cols': cols, 'dtype': 'float32' if isf else 'int64', 'cells': cells})
+            dt = rng.choice(['float32', 'float32', 'float32', 'float64']) if isf else rng.choice(['int64', 'int64', 'int64', 'int32'])
+            feats.append({'stype': name, 'kind': kind, 'cols': cols, 'dtype': dt, 'cells': cells})
         elif kind == 'emb':
             widths = [rng.choice([1, 2, 3, 4]) for _ in range(C)]
             cells = [[[_rnd_float(rng, .05) for _ in range(w)] for w in widths] for _ in range(R)]
-            feats.append({'stype': name, 'kind': kind, 'cols': cols, 'dtype': 'float32', 'widths': widths, 'cells': cells})
+            feats.append({'stype': name, 'kind': kind, 'cols': cols, 'dtype': rng.choice(['float32', 'float32', 'float32', 'float64']),
+                          'widths': widths, 'cells': cells})
         else:
             lens = [[rng.choice([0, 1, 2, 3, 4]) for _ in range(C)] for _ in range(R)]
-            ids = [[[rng.randint(0, 63) for _ in range(l)] for l in row] for row in lens]
-            mask = [[[1 for _ in range(l)] for l in row] for row in lens]
-            keys = {'input_ids': {'dtype': 'int64', 'cells': ids},
-                    'attention_mask': {'dtype': 'bool', 'cells': mask}}
-            if rng.random() < .2:
-                keys['token_type_ids'] = {'dtype': 'int64', 'cells': [[[0 for _ in range(l)] for l in row] for row in lens]}
-            feats.append({'stype': name, 'kind': kind, 'cols': cols, 'keys': keys})
+            feats.append({'stype': name, 'kind': kind, 'cols': cols, 'keys': gen_dict_keys(rng, lens)})
     ymode = rng.choice(['none', 'none', 'float', 'int'])
     y = None
     if ymode == 'float':
-        y = {'dtype': 'float32', 'data': [_rnd_float(rng, 0) for _ in range(R)]}
+        y = {'dtype': rng.choice(['float32', 'float32', 'float64']), 'data': [_rnd_float(rng, .03) for _ in range(R)]}
     elif ymode == 'int':
-        y = {'dtype': 'int64', 'data': [rng.randint(0, 3) for _ in range(R)]}
-    return {'R': R, 'feats': feats, 'y': y}
+        dt = rng.choice(['int64', 'int64', 'int32', 'bool'])
+        y = {'dtype': dt, 'data': [rng.randint(0, 1 if dt == 'bool' else 3) for _ in range(R)]}
+    spec = {'R': R, 'feats': feats, 'y': y}
+    # aliasing between the tensors of one frame (legal: nothing requires them to own their storage)
+    alias = []
+    if rng.random() < .12:
+        alias.append('y-is-a-view-of-a-feature')
+    if rng.random() < .12:
+        alias.append('tokenizer-outputs-share-one-offset-object')
+    if rng.random() < .08:
+        alias.append('two-containers-share-one-offset-object')
+    if alias:
+        spec['alias'] = alias
+    return spec
+
+
+KEY_ALIGN = ['same', 'same', 'same', 'perm', 'shift', 'indep', 'indep', 'empty']
+
+
+def relens(rng, lens, mode):
+    """per-cell lengths of a further tokenizer output, given those of the first: the same (token-aligned outputs),
+    the same multiset on other cells (equal total, different offsets), tokens moved between cells (equal total),
+    independent lengths, or nothing at all"""
+    R = len(lens)
+    C = len(lens[0]) if R else 0
+    flat = [l for row in lens for l in row]
+    if mode == 'perm':
+        flat = flat[:]
+        rng.shuffle(flat)
+    elif mode == 'shift':
+        flat = flat[:]
+        for _ in range(rng.randint(1, 3)):
+            src = [i for i, l in enumerate(flat) if l > 0]
+            if not src or len(flat) < 2:
+                break
+            i = rng.choice(src)
+            j = rng.choice([k for k in range(len(flat)) if k != i])
+            flat[i] -= 1
+            flat[j] += 1
+    elif mode == 'indep':
+        flat = [rng.choice([0, 1, 2, 3, 5]) for _ in flat]
+    elif mode == 'empty':
+        flat = [0 for _ in flat]
+    return [flat[i * C:(i + 1) * C] for i in range(R)]
+
+
+def gen_dict_keys(rng, lens):
+    """the outputs of a tokenizer for one text_tokenized feature: 1-4 keys, each a [R, C] grid of cells"""
+    def cells(ls, fn):
+        return [[[fn() for _ in range(l)] for l in row] for row in ls]
+    keys = {'input_ids': {'dtype': 'int64', 'cells': cells(lens, lambda: rng.randint(0, 63))}}
+    extra = [('attention_mask', 'bool', lambda: 1), ('token_type_ids', 'int64', lambda: rng.randint(0, 1)),
+             ('context_ids', 'int64', lambda: rng.randint(-1, 63)), ('char_ids', 'int32', lambda: rng.randint(0, 255))]
+    u = rng.random()
+    n_extra = 0 if u < .08 else 1 if u < .65 else 2 if u < .9 else 3
+    chosen = [extra[0]] + rng.sample(extra[1:], n_extra - 1) if n_extra else []
+    for nm, dt, fn in chosen:
+        mode = rng.choice(KEY_ALIGN)
+        keys[nm] = {'dtype': dt, 'cells': cells(relens(rng, lens, mode), fn), 'align': mode}
+    if rng.random() < .25:      # insertion order of the keys
+        items = list(keys.items())
+        rng.shuffle(items)
+        keys = dict(items)
+    return keys
 
 
 def _build_mnt(cells, R, C, dtype):
@@ -283,6 +372,9 @@ def _build_mnt(cells, R, C, dtype):
             values += [fl(v) if dt.is_floating_point else v for v in cell]
             offset.append(len(values))
     return MNT(R, C, torch.tensor(values, dtype=dt), torch.tensor(offset, dtype=torch.long))
+
+
+LAST_BUILD = {'alias': []}      # what the last build_direct_frame call actually aliased (for the histogram)
 
 
 def build_direct_frame(spec):
@@ -309,7 +401,274 @@ def build_direct_frame(spec):
     y = None
     if spec.get('y') is not None:
         y = tensor_of(spec['y']['data'], spec['y']['dtype'])
+    done = []
+    for a in spec.get('alias', []):
+        if a == 'y-is-a-view-of-a-feature':
+            # the target is a (strided) view into the storage of a dense float feature
+            for st, f in feat_dict.items():
+                if isinstance(f, torch.Tensor) and f.dim() == 2 and f.dtype.is_floating_point and f.shape[1] >= 1:
+                    y = f[:, f.shape[1] - 1]
+                    done.append(a)
+                    break
+        elif a == 'tokenizer-outputs-share-one-offset-object':
+            for st, f in feat_dict.items():
+                if isinstance(f, dict) and len(f) >= 2:
+                    ks = list(f)
+                    for k in ks[1:]:
+                        if torch.equal(f[k].offset, f[ks[0]].offset):
+                            f[k] = MNT(f[k].num_rows, f[k].num_cols, f[k].values, f[ks[0]].offset)
+                            done.append(a)
+        elif a == 'two-containers-share-one-offset-object':
+            mets = [(st, f) for st, f in feat_dict.items() if isinstance(f, MET)]
+            for (s1, f1), (s2, f2) in zip(mets, mets[1:]):
+                if torch.equal(f1.offset, f2.offset):
+                    feat_dict[s2] = MET(f2.num_rows, f2.num_cols, f2.values, f1.offset)
+                    done.append(a)
+    LAST_BUILD['alias'] = sorted(set(done))
     return TensorFrame(feat_dict, names, y)
+
+
+# ------------------------------------------------------------------------------- frames at scale
+# A large frame is described by its dimensions and one explicit seed per container; its payload is drawn from
+# numpy's frozen legacy generator `RandomState(seed)` (same stream on every numpy version), so the JSON spec still
+# determines the real objects exactly.
+
+def _compose(rng, total, parts):
+    """`parts` positive integers summing to `total`"""
+    parts = max(1, min(parts, total))
+    cuts = sorted(rng.sample(range(1, total), parts - 1)) if parts > 1 else []
+    return [b - a for a, b in zip([0] + cuts, cuts + [total])]
+
+
+def gen_big_frame(rng, level):
+    """a TensorFrame with at least one dimension from the size ladder: rows ('tall'), columns of one container
+    ('wide': 257+ columns), embedding width / cell length ('deep'); several containers share the rows"""
+    from harness import stress
+    lad = stress.ladder(level)
+    cap = (1 << 17, 1 << 21, 1 << 24)[min(level, 2)]        # stored elements per container
+
+    def rung(top_p=.6, limit=None):
+        xs = [x for x in lad if limit is None or x <= limit] or [lad[0]]
+        x = rng.choice(xs[-3:]) if rng.random() < top_p else rng.choice(xs)
+        return x + rng.choice([0, 0, 1, 2])
+    shape = rng.choice(['tall', 'tall', 'tall', 'wide', 'deep'])
+    R = rng.choice([1, 2, 3, 5, 8, 13, 21, 40])
+    if shape == 'tall':
+        R = lad[-1] + rng.choice([0, 0, 1, 2]) if rng.random() < .45 else rung()
+    k = rng.choice([1, 2, 2, 3])
+    names = rng.sample(ALL_STYPES, k)
+    if rng.random() < .6 and not any(kind_of(n) in ('emb', 'nested', 'dict') for n in names):
+        names[0] = rng.choice(EMB + NESTED + DICT)
+    feats = []
+    ncol = 0
+    scaled = rng.randrange(len(names))       # the container that carries the 'wide' / 'deep' dimension
+    for idx, name in enumerate(names):
+        kind = kind_of(name)
+        per_cell = 7 if name == 'timestamp' else 1
+        C = rng.choice([1, 1, 2, 3])
+        if shape == 'wide' and idx == scaled:
+            C = rung(.5, limit=max(17, min(4099, cap // max(R, 1) // per_cell)))
+        cols = [f'{name[:3]}_{ncol + i}' for i in range(C)]
+        ncol += C
+        f = {'stype': name, 'kind': kind, 'cols': cols, 'seed': rng.randrange(2 ** 31)}
+        room = max(1, cap // max(R * C, 1))                 # stored elements per cell that fit under the cap
+        if kind == 'dense':
+            f['dtype'] = 'int64' if name in ('timestamp', 'categorical') else rng.choice(['float32', 'float32', 'float64'])
+            f['shape'] = [R, C, 7] if name == 'timestamp' else [R, C]
+        elif kind == 'emb':
+            f['dtype'] = 'float32'
+            if (shape == 'deep' and idx == scaled) or (shape == 'tall' and rng.random() < .7):
+                # as wide as the storage cap allows (every second time), else any rung
+                W = rung(.7, limit=max(17, min(room * C, 4099 if shape == 'deep' else 259)))
+                if rng.random() < .5:
+                    W = max([x for x in lad if x <= max(17, min(room * C, 4099 if shape == 'deep' else 259))] or [17])
+            else:
+                W = sum(rng.choice([1, 2, 3, 4]) for _ in range(C))
+            W = max(W, C)
+            f['widths'] = _compose(rng, W, C) if C <= 64 else [1 + (W - C if i == 0 else 0) for i in range(C)]
+        else:
+            f['dtype'] = 'float32' if name == 'sequence_numerical' else 'int64'
+            f['maxlen'] = rng.choice([x for x in (1, 3, 6, 12, 40) if x <= max(1, room)])
+            f['long'] = []
+            if (shape == 'deep' and idx == scaled) or rng.random() < .3:
+                for _ in range(rng.choice([1, 1, 2])):
+                    f['long'].append([rng.randrange(R), rng.randrange(C),
+                                      rung(.6, limit=max(17, min(cap // 4, 65539)))])
+            if kind == 'dict':
+                f['keys'] = [['input_ids', 'int64', 'first']]
+                for nm, dt in rng.sample([('attention_mask', 'bool'), ('token_type_ids', 'int64'),
+                                          ('context_ids', 'int64')], rng.choice([1, 1, 2])):
+                    f['keys'].append([nm, dt, rng.choice(KEY_ALIGN)])
+        feats.append(f)
+    y = None
+    if rng.random() < .5:
+        y = {'dtype': rng.choice(['float32', 'int64']), 'seed': rng.randrange(2 ** 31)}
+    return {'R': R, 'shape': shape, 'feats': feats, 'y': y}
+
+
+def _rs_float(rs, shape, dtype, nan_p=.05):
+    x = rs.randint(-20, 21, size=shape).astype(np.float64) * 0.25
+    if nan_p:
+        x[rs.random_sample(size=shape) < nan_p] = np.nan
+    return torch.from_numpy(x).to(DTYPES[dtype])
+
+
+def _rs_lens(rs, R, C, maxlen, long):
+    lens = rs.randint(0, maxlen + 1, size=(R, C))
+    lens[rs.random_sample(size=(R, C)) < .25] = 0
+    for i, j, ln in long:
+        lens[i, j] = ln
+    return lens
+
+
+def _rs_mnt(rs, lens, dtype):
+    R, C = lens.shape
+    total = int(lens.sum())
+    if dtype == 'float32':
+        vals = _rs_float(rs, (total,), dtype)
+    elif dtype == 'bool':
+        vals = torch.ones(total, dtype=torch.bool)
+    else:
+        vals = torch.from_numpy(rs.randint(-1, 64, size=(total,))).to(DTYPES[dtype])
+    off = torch.zeros(R * C + 1, dtype=torch.long)
+    off[1:] = torch.from_numpy(np.cumsum(lens.reshape(-1)))
+    return MNT(R, C, vals, off)
+
+
+def _rs_relens(rs, lens, mode):
+    flat = lens.reshape(-1).copy()
+    if mode == 'perm':
+        rs.shuffle(flat)
+    elif mode == 'shift' and len(flat) >= 2 and flat.sum() > 0:
+        for _ in range(3):
+            src = np.nonzero(flat)[0]
+            i = int(src[rs.randint(len(src))])
+            j = (i + 1 + rs.randint(len(flat) - 1)) % len(flat)
+            flat[i] -= 1
+            flat[j] += 1
+    elif mode == 'indep':
+        flat = rs.randint(0, max(2, int(flat.max()) + 1) if len(flat) and flat.max() < 64 else 4, size=flat.shape)
+    elif mode == 'empty':
+        flat = np.zeros_like(flat)
+    return flat.reshape(lens.shape)
+
+
+def build_big_frame(spec):
+    R = spec['R']
+    feat_dict, names = {}, {}
+    for f in spec['feats']:
+        st = stype(f['stype'])
+        C = len(f['cols'])
+        names[st] = list(f['cols'])
+        rs = np.random.RandomState(f['seed'])
+        if f['kind'] == 'dense':
+            if f['stype'] == 'timestamp':
+                feat_dict[st] = torch.from_numpy(rs.randint(-1, 61, size=(R, C, 7))).to(torch.int64)
+            elif f['stype'] == 'categorical':
+                feat_dict[st] = torch.from_numpy(rs.randint(-1, 6, size=(R, C))).to(torch.int64)
+            else:
+                feat_dict[st] = _rs_float(rs, (R, C), f['dtype'], .1)
+        elif f['kind'] == 'emb':
+            W = sum(f['widths'])
+            off = torch.tensor([0] + list(np.cumsum(f['widths'])), dtype=torch.long)
+            feat_dict[st] = MET(R, C, _rs_float(rs, (R, W), 'float32', .02), off)
+        elif f['kind'] == 'nested':
+            feat_dict[st] = _rs_mnt(rs, _rs_lens(rs, R, C, f['maxlen'], f['long']), f['dtype'])
+        else:
+            lens = _rs_lens(rs, R, C, f['maxlen'], f['long'])
+            d = {}
+            for nm, dt, mode in f['keys']:
+                d[nm] = _rs_mnt(rs, lens if mode in ('first', 'same') else _rs_relens(rs, lens, mode), dt)
+            feat_dict[st] = d
+    y = None
+    if spec.get('y') is not None:
+        rs = np.random.RandomState(spec['y']['seed'])
+        y = _rs_float(rs, (R,), 'float32', 0) if spec['y']['dtype'] == 'float32' else \
+            torch.from_numpy(rs.randint(0, 4, size=(R,))).to(torch.int64)
+    return TensorFrame(feat_dict, names, y)
+
+
+def big_row_cost(spec):
+    """(stored elements per row, cells per row read one by one) of a large frame - an estimate used to keep the
+    frame that is saved (a view of the large one) within what is shipped to the Lean model"""
+    el = cells = 0
+    for f in spec['feats']:
+        C = len(f['cols'])
+        if f['kind'] == 'dense':
+            el += C * (7 if f['stype'] == 'timestamp' else 1)
+        elif f['kind'] == 'emb':
+            el += sum(f['widths'])
+            cells += C
+        else:
+            nk = len(f.get('keys', [0]))
+            el += nk * (C * (f['maxlen'] + 1) // 2)
+            cells += C * nk
+    return max(el, 1), cells
+
+
+def gen_big_derive(rng, spec, level, el_budget=120000):
+    """a view (row slice / column slice / both) or a selection of the large frame whose own size stays within the
+    budget; long cells may make the estimate too low, the caller checks the real size"""
+    from harness import stress
+    R = spec['R']
+    el, cells = big_row_cost(spec)
+    longest = sum(ln for f in spec['feats'] for _, _, ln in f.get('long', []))
+    ops = []
+    # column slices first or last (the order changes which tensor is the view of which)
+    def colslice():
+        sel = {}
+        for f in spec['feats']:
+            C = len(f['cols'])
+            if C >= 2 and rng.random() < .7:
+                a = rng.randint(0, C - 1)
+                b = rng.randint(a + 1, C) if rng.random() < .7 else min(C, a + rng.choice([1, 2, 17]))
+                if (a, b) != (0, C):
+                    sel[f['stype']] = [a, b]
+        return {'op': 'colslice', 'sel': sel} if sel else None
+    cs = colslice() if rng.random() < .45 else None
+    cs_first = rng.random() < .5
+    if cs and cs_first:
+        ops.append(cs)
+    mmax = max(1, min(R, (el_budget - min(longest, el_budget // 2)) // el))
+    u = rng.random()
+    small = rng.choice([0, 1, 2, 3, 5, 8, 12])
+    rungs = [x for x in stress.ladder(level) if x <= mmax]
+    m = min(R, rng.choice([small, mmax] + rungs + rungs))
+    # rows vs width of the widest embedding container: fewer, as many, more (each about as often)
+    widest = max([sum(f['widths']) for f in spec['feats'] if f['kind'] == 'emb'] or [0])
+    if widest and rng.random() < .6:
+        pick = rng.choice(['fewer', 'equal', 'more', 'more'])
+        more = [x + j for x in stress.ladder(level) for j in (0, 1, 2) if widest < x + j <= min(mmax, R)]
+        if pick == 'more' and more:
+            m = rng.choice(more[:6])
+        elif pick == 'equal' and widest <= min(mmax, R):
+            m = widest
+        elif pick == 'fewer':
+            m = min(m, max(widest - 1, 0), R)
+    if spec['feats'] and any(f.get('long') for f in spec['feats']) and rng.random() < .5 and R > 0:
+        # keep a row with a long cell inside the slice
+        i = rng.choice([l for f in spec['feats'] for l in f.get('long', [])])[0]
+        a = max(0, min(i - rng.randint(0, max(m - 1, 0)), R - m))
+    else:
+        a = rng.choice([0, R - m, rng.randint(0, R - m)])
+    if m == R and u < .5:
+        pass                                                   # the frame itself
+    elif u < .55:
+        ops.append({'op': 'slice', 'a': a, 'b': a + m})        # contiguous view
+    elif u < .65:
+        s = rng.choice([2, 3, 17])
+        ops.append({'op': 'slice', 'a': a, 'b': min(R, a + m * s), 's': s})
+    elif u < .85:
+        idx = sorted(rng.sample(range(R), m)) if rng.random() < .5 else [rng.randrange(R) for _ in range(m)]
+        ops.append({'op': 'index', 'idx': idx, 'as': rng.choice(['list', 'tensor'])})
+    else:
+        ops.append({'op': 'slice', 'a': a, 'b': a + m})
+        if m >= 2:
+            a2 = rng.randint(0, m // 2)
+            ops.append({'op': 'slice', 'a': a2, 'b': rng.randint(a2 + 1, m)})     # a slice of a slice
+    if cs and not cs_first:
+        ops.append(cs)
+    return ops
 
 
 # ------------------------------------------------------------------------------- derivations (views, cats)
@@ -354,10 +713,26 @@ def gen_derive(rng, R, depth=0):
     return ops, n
 
 
+def col_slice(tf, sel):
+    """a frame holding, for every stype named in `sel`, only the columns [a:b) of the container (a column-slice
+    view of the nested / embedding / dense storage) and the matching column names"""
+    feats, names = dict(tf.feat_dict), {k: list(v) for k, v in tf.col_names_dict.items()}
+    for name, (a, b) in sel.items():
+        st = stype(name)
+        if st not in feats:
+            continue
+        f = feats[st]
+        feats[st] = {k: v[:, a:b] for k, v in f.items()} if isinstance(f, dict) else f[:, a:b]
+        names[st] = names[st][a:b]
+    return TensorFrame(feats, names, tf.y)
+
+
 def apply_derive(tf, ops):
     for op in ops:
         if op['op'] == 'slice':
-            tf = tf[op['a']:op['b']]
+            tf = tf[op['a']:op['b']:op['s']] if op.get('s') else tf[op['a']:op['b']]
+        elif op['op'] == 'colslice':
+            tf = col_slice(tf, op['sel'])
         elif op['op'] == 'index':
             tf = tf[torch.tensor(op['idx'], dtype=torch.long)] if op.get('as') == 'tensor' else tf[list(op['idx'])]
         elif op['op'] == 'mask':
@@ -372,7 +747,7 @@ def apply_derive(tf, ops):
 def derive_labels(ops):
     labs = []
     for op in ops:
-        labs.append(op['op'])
+        labs.append(op['op'] + (':step' if op.get('s') else ''))
         if op['op'] == 'cat':
             for sub in op['parts']:
                 labs += ['in-cat:' + l for l in derive_labels(sub)]
@@ -380,37 +755,88 @@ def derive_labels(ops):
 
 
 # ------------------------------------------------------------------------------- statistics values
-def gen_stats(rng, colnames):
-    """hand-made col_stats holding python scalars, numpy scalars, lists, tuples, tensors, or None"""
-    if rng.random() < .12:
+def gen_stats(rng, colnames, big_size=None):
+    """hand-made col_stats holding python scalars, numpy scalars, lists, tuples, dicts, tensors, arrays, or None.
+    `big_size`: one statistic of one column is a list / tensor of that length."""
+    if rng.random() < .12 and big_size is None:
         return None
     out = {}
+    names = [s.name for s in StatType]
+    big_col = rng.choice(colnames) if (big_size is not None and colnames) else None
     for c in colnames:
         d = {}
-        for st in rng.sample(['MEAN', 'STD', 'QUANTILES', 'COUNT', 'MULTI_COUNT', 'YEAR_RANGE', 'EMB_DIM',
-                              'NEWEST_TIME', 'OLDEST_TIME', 'MEDIAN_TIME'], rng.randint(0, 4)):
+        k = rng.randint(0, 4) if len(colnames) <= 40 else rng.choice([0, 0, 1])
+        for st in rng.sample(names, min(k, len(names))):
             d[st] = gen_stat_value(rng)
+        if c == big_col:
+            d[rng.choice(names)] = gen_stat_value(rng, size=big_size)
         out[c] = d
     return out
 
 
-def gen_stat_value(rng, depth=0):
+STAT_F64 = [0.1, 1.0 / 3.0, 2.0 ** 24 + 1, 1700000001.0, 1e39, -1e39, 1.7e308, 5e-324, float('inf'), float('-inf'),
+            -0.0, 2.0 ** 53 + 2]
+STAT_STR = ['a', 'b c', '', '-1', 'nan', 'None', '<NA>', 'a\x00', 'É', 'sports', 'sportswear', 'a|b']
+NP_TYPES = ['float64', 'float32', 'float16', 'int64', 'int32', 'int16', 'int8', 'uint8', 'uint64', 'bool_']
+T_TYPES = ['float32', 'float64', 'int64', 'int32', 'bool', 'uint8', 'int16', 'float16']
+for _k in ('uint8', 'int16', 'float16', 'int8'):
+    DTYPES.setdefault(_k, getattr(torch, _k))
+
+
+def gen_stat_value(rng, depth=0, size=None):
+    """one statistics value: python / numpy scalars of every width, special floats, big ints, strings, None, bool,
+    tensors (0-d, 1-d, 2-d, empty; 8 dtypes), numpy arrays, lists / tuples / dicts of these (nested).  `size`:
+    length wanted for a list / tensor (the number of categories, quantiles ... is a size too)."""
     u = rng.random()
-    if u < .15:
+    if size is not None:
+        u = rng.choice([.5, .66, .8, .8])
+    if u < .10:
         return {'py': 'float', 'v': _rnd_float(rng, .15)}
-    if u < .25:
-        return {'py': 'int', 'v': rng.randint(-5, 2000)}
-    if u < .45:
-        return {'np': rng.choice(['float64', 'float32', 'int64', 'int32']), 'v': rng.randint(-8, 8) * 0.5}
-    if u < .55:
-        return {'tensor': {'dtype': rng.choice(['float32', 'int64']), 'data': [rng.randint(-3, 9) for _ in range(rng.randint(0, 4))]}}
-    if u < .6:
-        return {'py': 'str', 'v': rng.choice(['a', 'b c', ''])}
-    if u < .65:
+    if u < .16:
+        return {'py': 'f64', 'bits': core.float_bits(rng.choice(STAT_F64))}
+    if u < .24:
+        return {'py': 'int', 'v': rng.choice([rng.randint(-5, 2000), -1, 2 ** 31, 2 ** 53 + 1, 2 ** 63 - 1, -2 ** 63,
+                                              2 ** 70, 256, 257])}
+    if u < .28:
+        return {'py': 'bool', 'v': rng.random() < .5}
+    if u < .42:
+        t = rng.choice(NP_TYPES)
+        v = rng.randint(0, 1) if t == 'bool_' else rng.randint(0, 8) if t.startswith('uint') else rng.randint(-8, 8) * 0.5
+        return {'np': t, 'v': v}
+    if u < .56:
+        dt = rng.choice(T_TYPES)
+        shape = rng.choice(['1d', '1d', '1d', '0d', '2d', 'empty']) if size is None else '1d'
+        n = size if size is not None else {'0d': 1, 'empty': 0, '2d': 6}.get(shape, rng.randint(1, 4))
+        lo = 0 if dt in ('bool', 'uint8') else -3
+        hi = 1 if dt == 'bool' else 9
+        return {'tensor': {'dtype': dt, 'data': [rng.randint(lo, hi) for _ in range(n)], 'shape': shape}}
+    if u < .62:
+        dt = rng.choice(['float64', 'float32', 'int64', 'bool', 'uint8'])
+        n = size if size is not None else rng.randint(0, 4)
+        return {'ndarray': {'dtype': dt, 'data': [rng.randint(0, 1) if dt == 'bool' else rng.randint(0, 9) for _ in range(n)]}}
+    if u < .68:
+        return {'py': 'str', 'v': rng.choice(STAT_STR)}
+    if u < .72:
         return {'py': 'none'}
     if depth < 2:
-        items = [gen_stat_value(rng, depth + 1) for _ in range(rng.randint(0, 3))]
-        return {'list': items} if rng.random() < .6 else {'tuple': items}
+        n = size if size is not None else rng.randint(0, 3)
+        if size is not None:
+            # a long, flat list (e.g. COUNT of many categories: (names, counts))
+            kind = rng.choice(['ints', 'strs', 'floats', 'pair'])
+            if kind == 'pair':
+                return {'tuple': [{'list': [{'py': 'str', 'v': f'c{i}'} for i in range(n)]},
+                                  {'list': [{'py': 'int', 'v': (i * 7) % 301} for i in range(n)]}]}
+            mk = {'ints': lambda i: {'py': 'int', 'v': (i * 37) % 1009 - 4},
+                  'strs': lambda i: {'py': 'str', 'v': STAT_STR[i % len(STAT_STR)] + str(i // len(STAT_STR))},
+                  'floats': lambda i: {'py': 'float', 'v': ((i * 13) % 81 - 40) * 0.25}}[kind]
+            return {'list': [mk(i) for i in range(n)]}
+        items = [gen_stat_value(rng, depth + 1) for _ in range(n)]
+        v = rng.random()
+        if v < .5:
+            return {'list': items}
+        if v < .8:
+            return {'tuple': items}
+        return {'dict': [[rng.choice(['k', 'MEAN', '', 'a b', '0']) + str(i), it] for i, it in enumerate(items)]}
     return {'py': 'int', 'v': 1}
 
 
@@ -418,15 +844,27 @@ def build_stat_value(s):
     if 'py' in s:
         if s['py'] == 'float':
             return fl(s['v'])
+        if s['py'] == 'f64':
+            return core.bits_float(s['bits'])
         if s['py'] == 'none':
             return None
         return s['v']
     if 'np' in s:
         return getattr(np, s['np'])(s['v'])
     if 'tensor' in s:
-        return torch.tensor(s['tensor']['data'], dtype=DTYPES[s['tensor']['dtype']])
+        t = torch.tensor(s['tensor']['data'], dtype=DTYPES[s['tensor']['dtype']])
+        shape = s['tensor'].get('shape', '1d')
+        if shape == '0d':
+            return t.reshape(())
+        if shape == '2d':
+            return t.reshape(2, 3)
+        return t
+    if 'ndarray' in s:
+        return np.array(s['ndarray']['data'], dtype=s['ndarray']['dtype'])
     if 'list' in s:
         return [build_stat_value(v) for v in s['list']]
+    if 'dict' in s:
+        return {k: build_stat_value(v) for k, v in s['dict']}
     return tuple(build_stat_value(v) for v in s['tuple'])
 
 
@@ -459,21 +897,31 @@ class StubEmbedder:
 
 
 class StubTokenizer:
-    """white-space tokenizer stub returning one dict of 1-D tensors per sentence (or the batched form)"""
+    """white-space tokenizer stub returning one dict of 1-D tensors per sentence (or the batched form).
+    `extra='ragged'`: a further output `aux_ids` whose length per sentence differs from that of `input_ids`
+    (a pure function of the sentence, like the other outputs)."""
 
-    def __init__(self, batched=False):
+    def __init__(self, batched=False, extra=None):
         self.batched = batched
+        self.extra = extra
         self.calls = 0
 
     def __call__(self, xs):
         self.calls += 1
         ids = [torch.tensor([_h(t, 0) % 64 for t in str(s).split(' ') if t != ''], dtype=torch.long) for s in xs]
         masks = [torch.ones(len(i), dtype=torch.bool) for i in ids]
+        outs = {'input_ids': ids, 'attention_mask': masks}
+        if self.extra == 'ragged':
+            outs['aux_ids'] = [torch.tensor([_h(str(s), k) % 7 for k in range(_h(str(s), 1) % 4)], dtype=torch.long)
+                               for s in xs]
         if self.batched:
-            L = max([len(i) for i in ids] + [1])
-            return {'input_ids': torch.stack([torch.nn.functional.pad(i, (0, L - len(i)), value=-1) for i in ids]),
-                    'attention_mask': torch.stack([torch.nn.functional.pad(m, (0, L - len(m)), value=False) for m in masks])}
-        return [{'input_ids': i, 'attention_mask': m} for i, m in zip(ids, masks)]
+            res = {}
+            for key, ts in outs.items():
+                L = max([len(t) for t in ts] + [1])
+                pad = False if key == 'attention_mask' else -1
+                res[key] = torch.stack([torch.nn.functional.pad(t, (0, L - len(t)), value=pad) for t in ts])
+            return res
+        return [{k: outs[k][i] for k in outs} for i in range(len(xs))]
 
 
 WORDS = ['red', 'green', 'blue', 'cat', 'dog', 'tensor', 'frame', 'x', 'yy', 'zzz']
@@ -506,40 +954,65 @@ def gen_column(rng, name, n, clean=False):
     raise AssertionError(name)
 
 
-def gen_group(rng, gid):
-    """constructor arguments + data of one family of datasets (they share args, hence cache files)"""
-    n = rng.choice([1, 2, 3, 4, 6, 8])
-    k = rng.choice([1, 2, 3, 4, 5, 9])
+def col_values(col, which):
+    """the values of a data-frame column: written out, or (large groups) generated from an explicit seed"""
+    v = col[which]
+    if isinstance(v, dict) and 'gen' in v:
+        import random
+        r = random.Random(v['gen'])
+        if col['stype'] == 'embedding':
+            return [[r.randint(-8, 8) * 0.25 for _ in range(v['w'])] for _ in range(v['n'])]
+        return gen_column(r, col['stype'], v['n'], clean=v.get('clean', False))
+    return v
+
+
+def gen_group(rng, gid, n=None):
+    """constructor arguments + data of one family of datasets (they share args, hence cache files).
+    `n`: number of rows (large groups carry a seed per column instead of the values)."""
+    big = n is not None
+    n = rng.choice([1, 2, 3, 4, 6, 8]) if n is None else n
+    k = rng.choice([1, 2, 3, 4, 5, 9]) if not big else rng.choice([1, 2, 3, 4])
     names = rng.sample(ALL_STYPES, k)
     if rng.random() < .35 and 'text_tokenized' not in names:
         names.append('text_tokenized')
     if rng.random() < .35 and 'text_embedded' not in names:
         names.append('text_embedded')
+    if big and rng.random() < .5 and 'embedding' not in names:
+        names.append('embedding')
     cols = []
     for name in names:
         for r in range(rng.choice([1, 1, 2])):
             col = {'name': f'{name[:4]}{r}_{gid}', 'stype': name}
             if name == 'embedding':
-                w = rng.choice([1, 2, 3])
-                col['values'] = [[rng.randint(-8, 8) * 0.25 for _ in range(w)] for _ in range(n)]
+                w = rng.choice([1, 2, 3]) if not big else rng.choice([1, 3, 17, 33, 65])
+                if big:
+                    col['values'] = {'gen': rng.randrange(2 ** 31), 'n': n, 'w': w}
+                else:
+                    col['values'] = [[rng.randint(-8, 8) * 0.25 for _ in range(w)] for _ in range(n)]
                 col['new'] = [[rng.randint(-8, 8) * 0.25 for _ in range(w)] for _ in range(3)]
             else:
-                col['values'] = gen_column(rng, name, n)
+                col['values'] = {'gen': rng.randrange(2 ** 31), 'n': n} if big else gen_column(rng, name, n)
                 col['new'] = gen_column(rng, name, 3)
             cols.append(col)
     rng.shuffle(cols)
     target = None
     tmode = rng.choice(['none', 'none', 'num', 'cat'])
     if tmode == 'num':
-        target = {'name': f'y_{gid}', 'stype': 'numerical', 'values': gen_column(rng, 'numerical', n, clean=True),
+        target = {'name': f'y_{gid}', 'stype': 'numerical',
+                  'values': {'gen': rng.randrange(2 ** 31), 'n': n, 'clean': True} if big else
+                  gen_column(rng, 'numerical', n, clean=True),
                   'new': gen_column(rng, 'numerical', 3, clean=True)}
     elif tmode == 'cat':
         vals = [rng.choice(CATS[:3]) for _ in range(n)]
         target = {'name': f'y_{gid}', 'stype': 'categorical', 'values': vals,
                   'new': [rng.choice(sorted(set(vals))) for _ in range(3)]}
-    return {'gid': gid, 'n': n, 'cols': cols, 'target': target, 'emb_dim': rng.choice([1, 2, 4]),
-            'img_dim': rng.choice([1, 3]), 'tok_batched': rng.random() < .3,
-            'tok_batch_size': rng.choice([None, None, 2]), 'emb_batch_size': rng.choice([None, None, 2]),
+    tok_batched = rng.random() < .3
+    return {'gid': gid, 'n': n, 'cols': cols, 'target': target,
+            'emb_dim': rng.choice([1, 2, 4]) if not big else rng.choice([2, 4, 17, 33]),
+            'img_dim': rng.choice([1, 3]), 'tok_batched': tok_batched,
+            'tok_extra': 'ragged' if rng.random() < .3 else None,
+            'tok_batch_size': rng.choice([None, None, 2]) if not big else rng.choice([None, 64, 257]),
+            'emb_batch_size': rng.choice([None, None, 2]) if not big else rng.choice([None, 64, 257]),
             'new_with_target': rng.random() < .5}
 
 
@@ -553,7 +1026,7 @@ def group_df(group, which='values'):
     cols = list(group['cols'])
     if group['target'] is not None and (which == 'values' or group.get('new_with_target')):
         cols = cols + [group['target']]
-    return pd.DataFrame({c['name']: _series(c[which], c['stype']) for c in cols})
+    return pd.DataFrame({c['name']: _series(col_values(c, which), c['stype']) for c in cols})
 
 
 class Unusable:
@@ -586,7 +1059,7 @@ def make_dataset(group, usable=True):
         kw['col_to_image_embedder_cfg'] = ImageEmbedderConfig(image_embedder=StubEmbedder(group['img_dim']),
                                                               batch_size=group['emb_batch_size'])
     if 'text_tokenized' in names:
-        kw['col_to_text_tokenizer_cfg'] = TextTokenizerConfig(text_tokenizer=StubTokenizer(group['tok_batched']),
+        kw['col_to_text_tokenizer_cfg'] = TextTokenizerConfig(text_tokenizer=StubTokenizer(group['tok_batched'], group.get('tok_extra')),
                                                               batch_size=group['tok_batch_size'])
     ds = Dataset(df, col_to_stype, target_col=tgt, col_to_sep='|', col_to_time_format='%Y-%m-%d', **kw)
     if not usable:
